@@ -114,7 +114,7 @@ CHECKS = {
         leanchecker=True,
         level_text="Proved in Lean 4: C04_tree_roots — any two well-formed histories (blocks, rollbacks, restarts, reorgs incl. nested/repeated ones and continuations on the new fork) with the same surviving leaves serve the same exit root "
                    "for every deposit count (with C08_appendonly: the same leaves and verifying proofs), i.e. tree queries after a reorg are those of a node that never saw the dropped blocks; C04_tables — after Reorg(b) block and event tables hold exactly the entries of blocks < b; "
-                   "C04_event_keeps_earlier_rows — without legacy-token removals processing never touches rows of earlier blocks. PARTIAL: the full statement is FALSE for histories with RemoveLegacyToken events (C04_full_false_with_rmLegacy proves the witness on the model; "
+                   "C04_event_keeps_earlier_rows — without legacy-token removals processing never touches rows of earlier blocks; C04_updatable_reorg — the updatable (rollup exit) tree: upserts below block b, upserts from b on, Reorg(b), then the new fork's upserts: the roots returned and every leaf / proof served for the versions of the surviving history are exactly those of the specification of that history (the dropped versions' nodes stay in the node table, harmlessly). PARTIAL: the full statement is FALSE for histories with RemoveLegacyToken events (C04_full_false_with_rmLegacy proves the witness on the model; "
                    "KNOWN-FINDING F3 replays it on the real code). Tie: the real bridge processor + BridgeSync facade vs the compiled model on the same blocks/faults/reorgs/restarts, all queries compared; monitor = a fresh real processor fed only the surviving blocks must answer every query identically. "
                    "The L1-info-tree and injected-GER stores are not yet covered by this check.",
         level_note="Trusted: Lean kernel; H.Inj; model/code correspondence (generator-bounded); SQLite cascade semantics exercised through the real schema, modelled as a filter. Covers the bridge store only in this round.",
